@@ -969,3 +969,437 @@ Proof.
 Qed.
 
 End Summary.
+
+(* ====================================================================== rejected loads that import nothing *)
+(* When the merge reaches the conflict without importing any element of the new tree, the rollback has nothing to delete:
+   both index maps, the files, and the parent, content, name, type, attributes and comment of every old node are as before
+   the load; only file memberships can differ. *)
+Inductive FilesIF (nf : N) : list N -> list N -> Prop :=
+| fi_refl f : FilesIF nf f f
+| fi_restrict fs f' : ~ In nf fs -> FilesIF nf fs f' -> FilesIF nf [] f'
+| fi_bump f f' : f <> [] -> FilesIF nf (set_add nf f) f' -> FilesIF nf f f'.
+Lemma FilesIF_trans nf a b c : FilesIF nf a b -> FilesIF nf b c -> FilesIF nf a c.
+Proof. induction 1; intros H2; auto; [eapply fi_restrict|eapply fi_bump]; eauto. Qed.
+
+Definition same_but_files (n n' : node) : Prop := n' = set_files n (n_files n').
+Lemma same_but_files_refl n : same_but_files n n. Proof. unfold same_but_files. destruct n; reflexivity. Qed.
+Lemma same_but_files_trans a b c : same_but_files a b -> same_but_files b c -> same_but_files a c.
+Proof. unfold same_but_files. intros H1 H2. rewrite H2, H1. destruct a; reflexivity. Qed.
+Lemma same_but_files_set n f : same_but_files n (set_files n f). Proof. unfold same_but_files. destruct n; reflexivity. Qed.
+
+Definition IFE (nf : N) (w w' : world) : Prop :=
+  w_next w' = w_next w /\ w_files w' = w_files w /\ w_models w' = w_models w /\
+  forall i, match w_nodes w i, w_nodes w' i with
+            | Some n, Some n' => same_but_files n n' /\ FilesIF nf (n_files n) (n_files n')
+            | None, None => True
+            | _, _ => False
+            end.
+Lemma IFE_refl nf w : IFE nf w w.
+Proof. repeat split; auto. intros i. destruct (w_nodes w i); [split; [apply same_but_files_refl|apply fi_refl]|exact I]. Qed.
+Lemma IFE_trans nf a b c : IFE nf a b -> IFE nf b c -> IFE nf a c.
+Proof.
+  intros (A1 & A2 & A3 & A4) (B1 & B2 & B3 & B4). repeat split; try congruence. intros i. specialize (A4 i). specialize (B4 i).
+  destruct (w_nodes a i), (w_nodes b i), (w_nodes c i); try contradiction; auto.
+  destruct A4, B4. split; [eapply same_but_files_trans; eauto|eapply FilesIF_trans; eauto].
+Qed.
+Lemma IFE_upd nf w i n f' :
+  w_nodes w i = Some n -> FilesIF nf (n_files n) f' ->
+  IFE nf w (mkWorld (upd (w_nodes w) i (set_files n f')) (w_next w) (w_files w) (w_models w)).
+Proof.
+  intros Hn Hf. repeat split; auto. intros j. cbn [w_nodes]. destruct (N.eq_dec j i) as [->|Hne].
+  - rewrite upd_eq, Hn. split; [apply same_but_files_set|exact Hf].
+  - rewrite upd_neq by exact Hne. destruct (w_nodes w j); [split; [apply same_but_files_refl|apply fi_refl]|exact I].
+Qed.
+
+Lemma IFE_upd_same nf w i n :
+  w_nodes w i = Some n -> IFE nf w (mkWorld (upd (w_nodes w) i n) (w_next w) (w_files w) (w_models w)).
+Proof.
+  intros Hn. repeat split; auto. intros j. cbn [w_nodes]. destruct (N.eq_dec j i) as [->|Hne].
+  - rewrite upd_eq, Hn. split; [apply same_but_files_refl|apply fi_refl].
+  - rewrite upd_neq by exact Hne. destruct (w_nodes w j); [split; [apply same_but_files_refl|apply fi_refl]|exact I].
+Qed.
+
+Section ImportFree.
+Variable T : tables.
+Variables LATEST defref : N.
+
+Lemma restrict_IFE nf files : ~ In nf files -> forall l w r w', restrict_a_only l files w = Val (r, w') -> IFE nf w w'.
+Proof.
+  intros Hnf. induction l as [|e l IH]; intros w r w' H; cbn [restrict_a_only] in H.
+  - apply wret_inv in H as (_ & ->). apply IFE_refl.
+  - apply wbind_inv in H as [(u & w1 & H1 & H) | (e0 & H1 & _)]; [|apply modify_node_inv in H1 as (? & _ & [=] & _)].
+    apply modify_node_inv in H1 as (n & Hn & _ & ->). eapply IFE_trans; [|eapply IH; exact H].
+    destruct (n_files n) as [|f0 fr] eqn:Ef; cbn [is_empty].
+    + apply IFE_upd; [exact Hn|]. rewrite Ef. eapply fi_restrict; [exact Hnf|apply fi_refl].
+    + apply IFE_upd_same. exact Hn.
+Qed.
+
+Lemma bump_IFE nf ea w r w' : modify_node ea (bumpf nf) w = Val (r, w') -> IFE nf w w'.
+Proof.
+  intros H. apply modify_node_inv in H as (n & Hn & _ & ->). unfold bumpf.
+  destruct (n_files n) as [|f0 fr] eqn:Ef; cbn [is_empty negb].
+  - apply IFE_upd_same. exact Hn.
+  - apply IFE_upd; [exact Hn|]. rewrite Ef. eapply fi_bump; [discriminate|apply fi_refl].
+Qed.
+
+Fixpoint isubs (rec : world -> id -> list N -> id -> option (bool * world)) (files : list N) (nf : N)
+         (l : list (id * id)) (w : world) {struct l} : option (bool * world) :=
+  match l with
+  | [] => Some (false, w)
+  | (ea, eb) :: r =>
+    match w_nodes w ea with
+    | None => None
+    | Some nea =>
+      match rec w ea (if negb (is_empty (n_files nea)) then n_files nea else files) eb with
+      | None => None
+      | Some (true, w2) => Some (true, w2)
+      | Some (false, w2) =>
+        match modify_node ea (bumpf nf) w2 with
+        | Val (OK _, w3) => isubs rec files nf r w3
+        | _ => None
+        end
+      end
+    end
+  end.
+
+(* follow the merge; Some (rejected?, world after) when no level that is reached imports anything *)
+Fixpoint irun (fuel : nat) (w : world) (pa : id) (files : list N) (pb : id) (nf : N) {struct fuel} : option (bool * world) :=
+  match fuel with
+  | O => None
+  | S fl =>
+    match w_nodes w pa, w_nodes w pb with
+    | Some na, Some nb =>
+      let pty := n_type na in
+      match keys_of T defref w pty (n_content na), keys_of T defref w pty (n_content nb),
+            splittable_in T pty (N.min (files_min_version LATEST w files)
+                                       (match nth_opt (w_files w) (N.to_nat nf) with Some x => f_version x | None => LATEST end)) with
+      | Val la, Val lb, Val sp =>
+        match walk (S (List.length la + List.length lb)) la lb sp (N.of_nat (List.length (n_content na))) 0 la lb (mkWalked [] [] []) with
+        | Val (ER _) => Some (true, w)
+        | Val (OK wk) =>
+          if negb (set_mem nf files) && is_empty (wk_b_only wk)
+          then match restrict_a_only (wk_a_only wk) files w with
+               | Val (OK _, w1) => isubs (fun w a f b => irun fl w a f b nf) files nf (wk_merge wk) w1
+               | _ => None
+               end
+          else None
+        | _ => None
+        end
+      | _, _, _ => None
+      end
+    | _, _ => None
+    end
+  end.
+
+Lemma set_mem_false_notin f l : set_mem f l = false -> ~ In f l.
+Proof.
+  unfold set_mem. intros H Hin. assert (E : existsb (N.eqb f) l = true) by (apply existsb_exists; exists f; split; [exact Hin|apply N.eqb_refl]).
+  congruence.
+Qed.
+
+Theorem irun_sound : forall fuel w pa files pb nf b w',
+  irun fuel w pa files pb nf = Some (b, w') ->
+  merge_element T LATEST defref fuel pa files pb nf w = Val (qout b, w') /\ IFE nf w w'.
+Proof.
+  induction fuel as [|fl IH]; intros w pa files pb nf b w' Hq; [discriminate|].
+  cbn [irun] in Hq. rewrite LoadRefineMain.merge_element_unfold.
+  destruct (w_nodes w pa) as [na|] eqn:Ena; [|discriminate]. destruct (w_nodes w pb) as [nb|] eqn:Enb; [|discriminate].
+  cbv zeta in Hq.
+  destruct (keys_of T defref w (n_type na) (n_content na)) as [la| |] eqn:Ela; try discriminate.
+  destruct (keys_of T defref w (n_type na) (n_content nb)) as [lb| |] eqn:Elb; try discriminate.
+  destruct (splittable_in T (n_type na) _) as [sp| |] eqn:Esp; try discriminate.
+  unfold wbind at 1. cbn [wget]. unfold wbind at 1. unfold get_node at 1. rewrite Ena.
+  unfold wbind at 1. unfold get_node at 1. rewrite Enb. cbv zeta.
+  rewrite LoadRefineHeap.wbind_wl, Ela, LoadRefineHeap.wbind_wl, Elb, LoadRefineHeap.wbind_wl, Esp.
+  destruct (walk _ la lb sp _ 0 la lb _) as [[wk|e]| |] eqn:Ew; try discriminate.
+  - destruct (negb (set_mem nf files) && is_empty (wk_b_only wk)) eqn:Hc; [|discriminate].
+    apply andb_true_iff in Hc as [Hnf Hb]. apply negb_true_iff in Hnf. apply set_mem_false_notin in Hnf.
+    destruct (restrict_a_only (wk_a_only wk) files w) as [[[u|e] w1]| |] eqn:Er; try discriminate.
+    pose proof (restrict_IFE nf files Hnf _ _ _ _ Er) as W1.
+    unfold wbind at 1. unfold wbind at 1. rewrite Er.
+    destruct (wk_b_only wk); [|discriminate]. cbn [import_new_items]. unfold wbind at 1. cbn [wret].
+    assert (G : forall l w1 b w', isubs (fun w a f b => irun fl w a f b nf) files nf l w1 = Some (b, w') ->
+                LoadRefineMain.subs_loop T LATEST defref fl files nf l w1 = Val (qout b, w') /\ IFE nf w1 w').
+    { clear -IH. induction l as [|[ea eb] r IHl]; intros w1 b w' Hs; cbn [isubs] in Hs.
+      - injection Hs as <- <-. split; [reflexivity|apply IFE_refl].
+      - cbn [LoadRefineMain.subs_loop].
+        destruct (w_nodes w1 ea) as [nea|] eqn:Eea; [|discriminate].
+        destruct (irun fl w1 ea _ eb nf) as [[[|] w2]|] eqn:Eq; [| |discriminate].
+        + injection Hs as <- <-. destruct (IH _ _ _ _ _ _ _ Eq) as (E2 & W2).
+          split; [|exact W2]. unfold wbind at 1. unfold get_node at 1. rewrite Eea. unfold wbind at 1. rewrite E2. reflexivity.
+        + destruct (IH _ _ _ _ _ _ _ Eq) as (E2 & W2).
+          destruct (modify_node ea (bumpf nf) w2) as [[[u3|e3] w3]| |] eqn:Em; try discriminate.
+          destruct (IHl _ _ _ Hs) as (E3 & W3).
+          pose proof (bump_IFE nf ea w2 _ _ Em) as W23.
+          split; [|eapply IFE_trans; [exact W2|eapply IFE_trans; eauto]].
+          unfold wbind at 1. unfold get_node at 1. rewrite Eea. unfold wbind at 1. rewrite E2. cbn [qout].
+          unfold wbind at 1. fold (bumpf nf). rewrite Em. exact E3. }
+    destruct (G _ _ _ _ Hq) as (E & W). split; [exact E|eapply IFE_trans; eauto].
+  - injection Hq as <- <-. split; [|apply IFE_refl]. unfold wbind at 1.
+    rewrite (walk_err _ _ _ _ _ _ _ _ _ _ Ew). reflexivity.
+Qed.
+
+End ImportFree.
+
+(* ---------- the rollback when nothing becomes empty: the file is stripped from the memberships it visits, nothing else ---------- *)
+Definition strip (f : N) (n : node) : node := set_files n (set_remove f (n_files n)).
+Lemma set_remove_idem f l : set_remove f (set_remove f l) = set_remove f l.
+Proof.
+  unfold set_remove. induction l as [|y l IH]; cbn [filter]; [reflexivity|].
+  destruct (negb (y =? f)) eqn:E; cbn [filter]; [rewrite E, IH; reflexivity|exact IH].
+Qed.
+Lemma strip_idem f n : strip f (strip f n) = strip f n.
+Proof. unfold strip. destruct n. cbn -[set_remove]. rewrite set_remove_idem. reflexivity. Qed.
+
+Definition SE (f : N) (w w' : world) : Prop :=
+  w_next w' = w_next w /\ w_files w' = w_files w /\ w_models w' = w_models w /\
+  forall i, w_nodes w' i = w_nodes w i \/ exists n, w_nodes w i = Some n /\ w_nodes w' i = Some (strip f n).
+Lemma SE_refl f w : SE f w w. Proof. repeat split; auto. Qed.
+Lemma SE_trans f a b c : SE f a b -> SE f b c -> SE f a c.
+Proof.
+  intros (A1 & A2 & A3 & A4) (B1 & B2 & B3 & B4). repeat split; try congruence. intros i.
+  destruct (B4 i) as [E|(nb & Hb & Hc)]; destruct (A4 i) as [E'|(na & Ha & Hb')].
+  - left. congruence.
+  - right. exists na. split; [exact Ha|congruence].
+  - right. exists nb. split; [congruence|exact Hc].
+  - right. exists na. split; [exact Ha|]. rewrite Hb' in Hb. injection Hb as <-. rewrite Hc, strip_idem. reflexivity.
+Qed.
+
+(* no membership is exactly {f} *)
+Definition ND (f : N) (w : world) : Prop :=
+  forall i n, w_nodes w i = Some n -> n_files n <> [] -> set_remove f (n_files n) <> [].
+Lemma ND_SE f w w' : SE f w w' -> ND f w -> ND f w'.
+Proof.
+  intros (_ & _ & _ & H) HN i n' Hn' Hne. destruct (H i) as [E|(n & Hn & E)].
+  - rewrite E in Hn'. eapply HN; eauto.
+  - rewrite E in Hn'. injection Hn' as <-. unfold strip in *. destruct n; cbn -[set_remove] in *. rewrite set_remove_idem. exact Hne.
+Qed.
+Lemma SE_upd_strip f w i n :
+  w_nodes w i = Some n -> SE f w (mkWorld (upd (w_nodes w) i (strip f n)) (w_next w) (w_files w) (w_models w)).
+Proof.
+  intros Hn. repeat split; auto. intros j. cbn [w_nodes]. destruct (N.eq_dec j i) as [->|Hne].
+  - right. exists n. rewrite upd_eq. auto.
+  - left. apply upd_neq. exact Hne.
+Qed.
+
+Section RollbackStrip.
+Variable T : tables.
+
+Lemma rf_scan_strip f : forall l w r w', ND f w -> rf_scan f l w = Val (r, w') -> SE f w w' /\ (forall x, r = OK x -> x = []).
+Proof.
+  induction l as [|s rest IH]; intros w r w' HN H; cbn [rf_scan] in H.
+  - apply wret_inv in H as (-> & ->). split; [apply SE_refl|]. intros x [= <-]. reflexivity.
+  - apply wbind_inv in H as [(sn & w1 & H1 & H) | (e & H1 & _)]; [|apply get_node_inv in H1 as (? & _ & [=] & _)].
+    apply get_node_inv in H1 as (sn' & Hsn & [= <-] & ->).
+    destruct (is_empty (n_files sn)) eqn:Ee; cbn [negb] in H; [eapply IH; eauto|].
+    assert (Hne : n_files sn <> []) by (intros E; rewrite E in Ee; discriminate).
+    pose proof (HN s sn Hsn Hne) as Hfs. cbv zeta in H.
+    apply wbind_inv in H as [(u & w1 & H1 & H) | (e & H1 & _)]; [|apply set_node_inv in H1 as ([=] & _)].
+    apply set_node_inv in H1 as (_ & ->). fold (strip f sn) in H.
+    pose proof (SE_upd_strip f w s sn Hsn) as W1.
+    assert (Eemp : is_empty (set_remove f (n_files sn)) = false) by (destruct (set_remove f (n_files sn)); [congruence|reflexivity]).
+    apply wbind_inv in H as [(r0 & w2 & H2 & H) | (e & H2 & ->)].
+    + destruct (IH _ _ _ (ND_SE f _ _ W1 HN) H2) as (W2 & Hr). rewrite (Hr r0 eq_refl) in H. rewrite Eemp in H.
+      apply wret_inv in H as (-> & ->). split; [eapply SE_trans; eauto|]. intros x [= <-]. reflexivity.
+    + destruct (IH _ _ _ (ND_SE f _ _ W1 HN) H2) as (W2 & _). split; [eapply SE_trans; eauto|]. intros x [=].
+Qed.
+
+Lemma rollback_strip e f w r w' :
+  ND f w -> (forall n, w_nodes w e = Some n -> n_files n <> []) ->
+  e_remove_from_file T e f w = Val (r, w') -> SE f w w'.
+Proof.
+  intros HN Hroot H. rewrite e_remove_from_file_scan in H.
+  apply wbind_inv in H as [(n & w1 & H1 & H) | (e0 & H1 & _)]; [|apply get_node_inv in H1 as (? & _ & [=] & _)].
+  apply get_node_inv in H1 as (n' & Hn & [= <-] & ->).
+  apply wbind_inv in H as [(ps & w1 & H1 & H) | (e0 & H1 & _)]; apply ro_parent_splittable in H1; subst; [|apply SE_refl].
+  destruct (negb ps); [apply wfail_inv in H as (_ & ->); apply SE_refl|].
+  apply wbind_inv in H as [(fm & w1 & H1 & H) | (e0 & H1 & _)]; apply ro_file_model in H1; subst; [|apply SE_refl].
+  apply wbind_inv in H as [(m & w1 & H1 & H) | (e0 & H1 & _)]; apply ro_model_of in H1; subst; [|apply SE_refl].
+  destruct (negb (fm =? m)); [apply wfail_inv in H as (_ & ->); apply SE_refl|].
+  apply wbind_inv in H as [([loc cur] & w1 & H1 & H) | (e0 & H1 & _)]; [|apply ro_file_membership in H1; subst; apply SE_refl].
+  pose proof (Hroot n Hn) as Hne.
+  assert (Ecur : cur = n_files n /\ w1 = w).
+  { unfold file_membership, wbind, wget in H1. cbn [fuel_of fm_walk] in H1.
+    unfold wbind, get_node in H1. rewrite Hn in H1. destruct (n_files n) as [|f0 fr] eqn:Ef; [congruence|].
+    cbn [is_empty negb] in H1. unfold wret in H1. injection H1 as _ <- <-. auto. }
+  destruct Ecur as (-> & ->). clear H1.
+  pose proof (HN e n Hn Hne) as Hfs.
+  assert (Ee : is_empty (set_remove f (n_files n)) = false) by (destruct (set_remove f (n_files n)); [congruence|reflexivity]).
+  cbv zeta in H. rewrite Ee in H.
+  apply wbind_inv in H as [(u & w1 & H1 & H) | (e0 & H1 & _)]; [|apply wret_inv in H1 as ([=] & _)].
+  apply wret_inv in H1 as (_ & ->).
+  apply wbind_inv in H as [(u2 & w1 & H1 & H) | (e0 & H1 & _)]; [|apply modify_node_inv in H1 as (? & _ & [=] & _)].
+  apply modify_node_inv in H1 as (n2 & Hn2 & _ & ->). rewrite Hn in Hn2. injection Hn2 as <-. fold (strip f n) in H.
+  pose proof (SE_upd_strip f w e n Hn) as W1. set (w1 := mkWorld _ _ _ _) in *.
+  apply wbind_inv in H as [(w0 & w2 & H1 & H) | (e0 & H1 & _)]; [|apply wget_inv in H1 as ([=] & _)].
+  apply wget_inv in H1 as (_ & ->).
+  apply wbind_inv in H as [(ids & w2 & H1 & H) | (e0 & H1 & _)]; apply ro_dfs_ids in H1; subst; [|exact W1].
+  apply wbind_inv in H as [(td & w2 & H1 & H) | (e0 & H1 & ->)].
+  - destruct (rf_scan_strip f ids w1 _ _ (ND_SE f _ _ W1 HN) H1) as (W2 & Htd). rewrite (Htd td eq_refl) in H.
+    apply wret_inv in H as (_ & ->). eapply SE_trans; eauto.
+  - destruct (rf_scan_strip f ids w1 _ _ (ND_SE f _ _ W1 HN) H1) as (W2 & _). eapply SE_trans; eauto.
+Qed.
+
+End RollbackStrip.
+
+Lemma set_remove_set_add x : forall l, set_remove x (set_add x l) = set_remove x l.
+Proof.
+  unfold set_remove. induction l as [|y l IH]; cbn [set_add filter].
+  - rewrite N.eqb_refl. reflexivity.
+  - destruct (x <? y) eqn:E1; [cbn [filter]; rewrite N.eqb_refl; reflexivity|].
+    destruct (x =? y) eqn:E2; [reflexivity|]. cbn [filter]. rewrite IH. reflexivity.
+Qed.
+Lemma set_add_nonempty x l : set_add x l <> [].
+Proof. destruct l as [|y l]; cbn [set_add]; [discriminate|]. destruct (x <? y); [discriminate|]. destruct (x =? y); discriminate. Qed.
+
+Lemma FilesIF_nd nf f f1 : FilesIF nf f f1 -> (f = [] \/ set_remove nf f <> []) -> (f1 = [] \/ set_remove nf f1 <> []).
+Proof.
+  induction 1 as [f|fs f' Hnf H IH|f f' Hne H IH]; intros H0; [exact H0| |].
+  - apply IH. rewrite (set_remove_notin nf fs Hnf). destruct fs; [left; reflexivity|right; discriminate].
+  - apply IH. right. rewrite set_remove_set_add. destruct H0 as [E|E]; [contradiction|exact E].
+Qed.
+Lemma FilesIF_nonempty nf f f1 : FilesIF nf f f1 -> f <> [] -> f1 <> [].
+Proof.
+  induction 1 as [f|fs f' Hnf H IH|f f' Hne H IH]; intros H0; [exact H0|congruence|]. apply IH. apply set_add_nonempty.
+Qed.
+
+Lemma n_files_set_files n f : n_files (set_files n f) = f. Proof. destruct n; reflexivity. Qed.
+
+Section ImportFreeLoad.
+Variable T : tables.
+Variables LATEST defref : N.
+
+Definition import_free_load (m : N) (filename : list N) (root : Parser.etree) (st : Parser.pstate) (w : world) : bool :=
+  match install PNone root w with
+  | Val (OK t, w1) =>
+    let fid := N.of_nat (List.length (w_files w)) in
+    let w1' := mkWorld (w_nodes w1) (w_next w1)
+                       (w_files w1 ++ [mkFile m filename (Parser.p_version st) (Parser.p_standalone st)]) (w_models w1) in
+    match nth_opt (w_models w1') (N.to_nat m) with
+    | Some x =>
+      match w_nodes w1' (m_root x) with Some rn => negb (is_empty (n_files rn)) | None => false end &&
+      match irun T LATEST defref (fuel_of w1') w1' (m_root x) (fold_right set_add [] (m_files x)) (it_id t) fid with
+      | Some (true, _) => true
+      | _ => false
+      end
+    | None => false
+    end
+  | _ => false
+  end.
+
+(* a rejected load that imported nothing: the index maps, the files and everything of the old nodes except the file
+   membership are as before; a membership is what the merge stage made of it (FilesIF: made explicit, the new file added),
+   with the new file removed again where the rollback came by, and renamed to a dead file where it did not *)
+Theorem import_free_residue m filename root st w w' :
+  FreshIn (N.of_nat (List.length (w_files w))) w ->
+  import_free_load m filename root st w = true ->
+  load_parsed T LATEST defref m filename root st w = Val (ER InvalidFileMerge, w') ->
+  let fid := N.of_nat (List.length (w_files w)) in
+  w_next w <= w_next w' /\ w_files w' = w_files w /\ w_models w' = w_models w /\
+  exists d, forall i, i < w_next w ->
+    match w_nodes w i, w_nodes w' i with
+    | Some n, Some n' =>
+      same_but_files n n' /\
+      exists f1, FilesIF fid (n_files n) f1 /\
+                 (n_files n' = rename_files fid d f1 \/ n_files n' = set_remove fid f1)
+    | None, None => True
+    | _, _ => False
+    end.
+Proof.
+  intros HF Hq H fid0. subst fid0.
+  destruct (load_parsed_reject_inv T LATEST defref m filename root st w w' H)
+    as (t & w1 & x & wM & x1 & o & wR & keep & wK & H1 & Hx & Eemp & Hm & Hx1 & Hr & Hk & Hd).
+  cbv zeta in Hx, Hm. unfold import_free_load in Hq. rewrite H1 in Hq. cbv zeta in Hq.
+  set (fid := N.of_nat (List.length (w_files w))) in *.
+  set (w1' := mkWorld (w_nodes w1) (w_next w1) (w_files w1 ++ [mkFile m filename (Parser.p_version st) (Parser.p_standalone st)]) (w_models w1)) in *.
+  rewrite Hx in Hq. apply andb_true_iff in Hq as [Hroot Hq].
+  destruct (irun T LATEST defref (fuel_of w1') w1' (m_root x) (fold_right set_add [] (m_files x)) (it_id t) fid) as [[[|] wM']|] eqn:Ei;
+    try discriminate.
+  destruct (irun_sound T LATEST defref _ _ _ _ _ _ _ _ Ei) as (EM & WM). cbn [qout] in EM.
+  assert (EwM : wM = wM').
+  { unfold merge_file_data in Hm. unfold wbind at 1 in Hm. unfold get_model at 1 in Hm. rewrite Hx in Hm.
+    unfold wbind at 1 in Hm. cbn [wget] in Hm. unfold wbind at 1 in Hm. rewrite EM in Hm. injection Hm as <-. reflexivity. }
+  subst wM'.
+  pose proof (above_install (w_next w) _ _ _ _ _ (N.le_refl _) H1) as (A1 & A2 & A3 & A4).
+  assert (HF1 : FreshIn fid w1') by (intros i n Hn; eapply (FreshIn_FK fid w w1 (FK_install root PNone w _ _ H1) HF); exact Hn).
+  destruct WM as (M1 & M2 & M3 & M4).
+  assert (HND : ND fid wM).
+  { intros i nM HnM Hne. specialize (M4 i). rewrite HnM in M4. destruct (w_nodes w1' i) as [n|] eqn:En; [|contradiction].
+    destruct M4 as (_ & Hfi). destruct (FilesIF_nd fid _ _ Hfi) as [E|E]; [|contradiction|exact E].
+    rewrite (set_remove_notin fid (n_files n) (HF1 i n En)). destruct (n_files n); [left; reflexivity|right; discriminate]. }
+  assert (Ex1 : x1 = x) by (rewrite M3, Hx in Hx1; injection Hx1 as <-; reflexivity). subst x1.
+  apply wtry_inv in Hr as (r0 & Hr & _).
+  assert (WR : SE fid wM wR).
+  { eapply (rollback_strip T (m_root x) fid wM r0 wR HND); [|exact Hr].
+    intros nM HnM. specialize (M4 (m_root x)). rewrite HnM in M4. destruct (w_nodes w1' (m_root x)) as [rn|] eqn:Ern; [|contradiction].
+    destruct M4 as (_ & Hfi). apply (FilesIF_nonempty fid _ _ Hfi). apply negb_true_iff in Hroot. intros E. rewrite E in Hroot. discriminate. }
+  destruct WR as (R1 & R2 & R3 & R4).
+  apply kill_unreachable_eff in Hk as (_ & (K1 & K2 & K3 & K4 & _)).
+  apply drop_file_eff in Hd as (D1 & D2 & D3 & D4).
+  cbn [w_next w_files w_models w_nodes w1'] in *.
+  split; [lia|]. split; [rewrite D2, K2, R2, M2, A3; apply removelast_snoc|]. split; [rewrite D3, K3, R3, M3; exact A4|].
+  exists (DEAD_FILE_BASE + w_next wK). intros i Hi.
+  rewrite D4, (K4 i Hi). specialize (M4 i). rewrite (A2 i Hi) in M4.
+  destruct (w_nodes w i) as [n|] eqn:En.
+  - destruct (w_nodes wM i) as [nM|] eqn:EnM; [|contradiction]. destruct M4 as (Hs & Hfi).
+    destruct (R4 i) as [E|(nM' & HnM' & E)].
+    + rewrite E, EnM. cbn [option_map]. unfold rename_file, rename_files.
+      destruct (set_mem fid (n_files nM)) eqn:Em.
+      * split; [eapply same_but_files_trans; [exact Hs|apply same_but_files_set]|].
+        exists (n_files nM). split; [exact Hfi|]. left. rewrite n_files_set_files, ?Em. reflexivity.
+      * split; [exact Hs|]. exists (n_files nM). split; [exact Hfi|]. left. rewrite ?Em. reflexivity.
+    + rewrite EnM in HnM'. injection HnM' as <-. rewrite E. cbn [option_map]. unfold rename_file.
+      assert (Em : set_mem fid (n_files (strip fid nM)) = false).
+      { apply set_mem_false. unfold strip. rewrite n_files_set_files. unfold set_remove. intros Hin. apply filter_In in Hin as [_ Hin].
+        rewrite N.eqb_refl in Hin. discriminate. }
+      rewrite Em. split; [eapply same_but_files_trans; [exact Hs|apply same_but_files_set]|].
+      exists (n_files nM). split; [exact Hfi|]. right. unfold strip. apply n_files_set_files.
+  - destruct (w_nodes wM i) as [nM|] eqn:EnM; [contradiction|].
+    destruct (R4 i) as [E|(nM' & HnM' & _)]; [rewrite E, EnM; exact I|congruence].
+Qed.
+
+End ImportFreeLoad.
+
+(* the residue example imports nothing (its trace is the membership of UNIT t made explicit) *)
+Example import_free_example :
+  import_free_load MergeSpec.TinyM.tiny MergeSpec.TinyM.LATEST MergeSpec.TinyM.DEFREF 0 (BS "b") QuietExample.conf_b
+                   (MergeSpec.pstate_of MergeSpec.TinyM.tiny 2 QuietExample.conf_b) (QuietExample.after QuietExample.conf_a) = true.
+Proof. vm_compute. reflexivity. Qed.
+
+Section SummaryIF.
+Variable T : tables.
+Variables tab_el tab_at tab_en : nametab.
+Variable check_fn : N -> list N -> res bool.
+Variable float_parse : list N -> option N.
+Variables LATEST defref : N.
+
+Theorem load_reject_import_free m buffer filename strict w w' root st :
+  Parser.load strict T tab_el tab_at tab_en check_fn float_parse buffer = Val (Parser.Ret root st) ->
+  FreshIn (N.of_nat (List.length (w_files w))) w ->
+  import_free_load T LATEST defref m filename root st w = true ->
+  m_load_buffer T tab_el tab_at tab_en check_fn float_parse LATEST defref m buffer filename strict w
+    = Val (ER InvalidFileMerge, w') ->
+  let fid := N.of_nat (List.length (w_files w)) in
+  w_next w <= w_next w' /\ w_files w' = w_files w /\ w_models w' = w_models w /\
+  exists d, forall i, i < w_next w ->
+    match w_nodes w i, w_nodes w' i with
+    | Some n, Some n' =>
+      same_but_files n n' /\
+      exists f1, FilesIF fid (n_files n) f1 /\
+                 (n_files n' = rename_files fid d f1 \/ n_files n' = set_remove fid f1)
+    | None, None => True
+    | _, _ => False
+    end.
+Proof.
+  intros Hp HF Hq H. unfold m_load_buffer in H.
+  apply wbind_inv in H as [(x & w1 & H1 & H) | (e' & H1 & _)]; [|apply get_model_inv in H1 as (? & _ & [=] & _)].
+  apply get_model_inv in H1 as (x' & _ & _ & ->).
+  apply wbind_inv in H as [(w0 & w2 & H2 & H) | (e' & H2 & _)]; [|apply wget_inv in H2 as ([=] & _)].
+  apply wget_inv in H2 as (E2 & ->). injection E2 as ->.
+  destruct (existsb _ (m_files x)); [apply wfail_inv in H as ([=] & _)|].
+  rewrite Hp in H.
+  apply wbind_inv in H as [(fo & w3 & H3 & H) | (e' & H3 & [= <-])]; [apply wret_inv in H as ([=] & _)|].
+  eapply import_free_residue; eauto.
+Qed.
+
+End SummaryIF.
